@@ -3,7 +3,7 @@
 EXTENDS AppContainer, VerifEmit
 ASSUME EmitReset
 Behaviour == [comps |-> comps, fail |-> fail, chain |-> [k \in 1..Len(chain) |-> chain[k]],
-              log |-> log, startErr |-> startErr, closeErrs |-> closeErrs,
+              late |-> late, log |-> log, startErr |-> startErr, closeErrs |-> closeErrs,
               resolve |-> [nm \in Names |-> Resolve(nm)]]
 Emit == EmitWhen(pc = "done", Behaviour)
 =============================================================================
